@@ -54,24 +54,31 @@ impl Environment {
         env
     }
 
+    /// Returns the key used to track versions of the variable. Note that the suffix
+    /// is separated by a `.` (which cannot occur in an identifier), to ensure that the
+    /// renamed variable `x` with suffix `0` is not identified with a variable named `x_0`.
+    fn key(name: &VariableName) -> String {
+        match name.suffix() {
+            Some(suffix) => format!("{}.{}", name.name(), suffix),
+            None => name.name().clone(),
+        }
+    }
+
     /// Gets the current (scoped) version of the variable.
     pub fn get_current_version(&self, name: &VariableName) -> Option<Version> {
-        // Need to use format to include the suffix.
-        let name = format!("{:?}", name.without_version());
+        let name = Self::key(name);
         self.scoped_versions.get_variable(&name).cloned()
     }
 
     /// Gets the range of versions seen for the variable.
     pub fn get_version_range(&self, name: &VariableName) -> Option<Range<Version>> {
-        // Need to use format to include the suffix.
-        let name = format!("{:?}", name.without_version());
+        let name = Self::key(name);
         self.global_versions.get_variable(&name).map(|max| 0..(max + 1))
     }
 
     /// Gets the version to apply for a newly assigned variable.
     fn get_next_version(&mut self, name: &VariableName) -> Version {
-        // Need to use format to include the suffix.
-        let name = format!("{:?}", name.without_version());
+        let name = Self::key(name);
         let version = match self.global_versions.get_variable(&name) {
             // The variable has not been seen before. This is version 0 of the variable.
             None => 0,
